@@ -357,7 +357,7 @@ def integer_coordinates_rule(ctx, lib):
         r.ok("TRI3 tilted in space, integer node coordinates: Jacobian as for float coordinates")
 
 
-def embedding_dimension_rule(ctx):
+def embedding_dimension_rule(ctx, rid="R7.10"):
     """R7.10: the embedding dimension read from the coordinates (it selects the branch of the geometric chain that
     projects lower-dimensional elements onto their own axes): 3 as soon as some z differs from 0, else 2 as soon as
     some y differs from 0, else 1 -- whatever the SIGN of those coordinates.  The inDim property is interpreted on
@@ -367,7 +367,7 @@ def embedding_dimension_rule(ctx):
     repo = ctx.repo
     ge = repo.cls("EasyFEA.FEM._group_elem._GroupElem")
     f = ge.methods["inDim"]
-    r = ctx.rule("R7.10", "inDim: 3 iff some z != 0, else 2 iff some y != 0, else 1, for coordinates of either sign", min_instances=8)
+    r = ctx.rule(rid, "inDim: 3 iff some z != 0, else 2 iff some y != 0, else 1, for coordinates of either sign", min_instances=8)
     et_cls = repo.cls("EasyFEA.FEM._utils.ElemType")
     seg2 = EnumVal(et_cls, "SEG2", repo.enum_members(et_cls.qualname)["SEG2"])
     cases = [
